@@ -102,6 +102,7 @@ type sqlGen struct {
 
 	intEnum, strEnum, smallEnum *Decl
 	usedDashComma               bool
+	extInPayload                bool
 	otherFileID                 *Decl
 	otherFileTable              string
 	extEnum                     *Decl
@@ -578,6 +579,10 @@ func (g *sqlGen) payload() *Decl {
 	mkStruct := func(stem string) *Decl {
 		d := g.addDecl(&Decl{Name: g.fresh(stem), Kind: DStruct}, "other.go")
 		d.Fields = append(d.Fields, &Field{Name: "Note", Type: Basic("string")}) // never an all-integer composite
+		if g.sub != nil && g.sub.Name == g.root.Name && !g.extInPayload {
+			g.extInPayload = true
+			d.Fields = append(d.Fields, &Field{Name: "Tier", Type: Ref(g.externEnum())}, &Field{Name: "Tiers", Type: Slice(Ref(g.externEnum()))})
+		}
 		if !g.usedDashComma && g.pr(0.3) {
 			g.usedDashComma = true
 			d.Fields = append(d.Fields, &Field{Name: "Minus", Type: Basic("int"), Tag: `json:"-,"`}) // the key is "-"
@@ -1006,7 +1011,7 @@ func (g *sqlGen) addDirectives() {
 			g.p.Feature("directive:" + d.Kind)
 		}
 		// single column UNIQUE
-		if g.pr(0.4) && len(wide) > 0 {
+		if g.pr(0.5) && len(wide) > 0 {
 			c := wide[g.r.Intn(len(wide))]
 			if !c.Primary {
 				add(SQLDirective{Kind: "unique-1", Raw: fmt.Sprintf("ADD UNIQUE(%s)", c.Field), Expected: fmt.Sprintf("ALTER TABLE %s ADD UNIQUE(%s);", tr.SQLName, c.Field)})
@@ -1018,7 +1023,7 @@ func (g *sqlGen) addDirectives() {
 				}
 			}
 		}
-		if len(wide) >= 2 && g.pr(0.4) {
+		if len(wide) >= 2 && g.pr(0.6) {
 			a, b := wide[0], wide[len(wide)-1]
 			if a.Field != b.Field {
 				sp := g.pick("", " ")
@@ -1081,6 +1086,19 @@ func (g *sqlGen) addDirectives() {
 			add(SQLDirective{Kind: "placeholder-value-spelled-like-a-table",
 				Raw:      fmt.Sprintf("COMMENT ON TABLE %s IS #[%s.%s]", tr.Struct, g.strEnum.Name, member),
 				Expected: fmt.Sprintf("COMMENT ON TABLE %s IS %s /* %s.%s */;", tr.SQLName, g.strEnumVals[0], g.strEnum.Name, member)})
+		}
+		// a custom QUERY whose enum placeholder value is spelled like a table struct
+		if ti == 0 && g.tableHint != "" && len(cols) >= 1 && !cols[0].Primary && g.pr(0.7) {
+			member := g.strEnum.Blocks[0].Specs[0].Names[0]
+			set := cols[0]
+			fn := g.fresh("Stamp" + tr.Struct)
+			q := SQLQuery{Func: fn,
+				Raw:      fmt.Sprintf("%s UPDATE %s SET %s = $x$ WHERE #[%s.%s] <> 'none' ;", fn, tr.Struct, set.Field, g.strEnum.Name, member),
+				Expected: fmt.Sprintf("UPDATE %s SET %s = $1 WHERE %s /* %s.%s */ <> 'none' ;", tr.SQLName, set.Field, g.strEnumVals[0], g.strEnum.Name, member),
+				ArgNames: []string{"x"}, ArgTypes: []string{set.GoType}, Fields: []string{set.Field}}
+			tr.Queries = append(tr.Queries, q)
+			doc = append(doc, "gomacro:QUERY "+q.Raw)
+			g.p.Feature("directive:query-placeholder-value-spelled-like-a-table")
 		}
 		// unique + nullable foreign key declared by tag on a primary table
 		if tr.Primary != "" {
